@@ -295,6 +295,20 @@ if not VIOLATED:
         got = mf2.fitness(np.array([level]))[0]
         if not np.isclose(got, want):
             VIOLATED, DETAIL = True, f'result range rows 0:2 cols 0:2, target range rows 1:3 cols 2:4: fitness(level={level}) = {got!r}, declared figure of merit = {want!r}'
+    # weight MAPS from files with shifted ranges: the maps are cut with the TARGET range
+    rng = np.random.default_rng(5)
+    wmap = rng.uniform(0.5, 2.0, size=(rows, cols))
+    np.save(d / 'wmap.npy', wmap)
+    mf3 = ModelFittingDataTree(processor=Processor(detector=VP.detector(), pipeline=pipe2), variables=variables, readout=Readout(), simulation_output='image', generations=1, population_size=4,
+                               fitness_func=sum_of_abs_residuals, file_path=None, target_fit_range=FitRange2D(row=slice(1, 3), col=slice(2, 4)),
+                               out_fit_range=FitRange3D(time=slice(None), row=slice(0, 2), col=slice(0, 2)), target_filenames=[d / 'ramp.npy'], input_arguments=None, weights=None,
+                               weights_from_file=[d / 'wmap.npy'])
+    for level in (2.0, 7.0):
+        sim = level + 10 * np.arange(rows)[:, None] + np.arange(cols)[None, :]
+        want = np.abs(wmap[1:3, 2:4] * (tgt[1:3, 2:4] - sim[0:2, 0:2])).sum()
+        got = mf3.fitness(np.array([level]))[0]
+        if not np.isclose(got, want) and not VIOLATED:
+            VIOLATED, DETAIL = True, f'weight map from file, result range rows 0:2 cols 0:2, target range rows 1:3 cols 2:4: fitness(level={level}) = {got!r}, declared figure of merit (weights cut with the target range) = {want!r}'
 """, "expect": "fitness = sum over all (processor, target) pairs of the fitness function on that pair's data (result range / target range) and weight"}
 
 
@@ -540,6 +554,18 @@ def init_unit(u: Unit):
                     okw = isinstance(w, VOpaque) and w.info.get("fn") is not None and str(w.info["fn"].info.get("attr")) == "isel" and \
                         any(c[2].get("filenames") is h["wfiles"] and w.info["fn"].info.get("of") is not None for c in cp)
                     u.oblige(p, f"init.declared_weights_kept[{tag}]", bool(okw), {}, FIT_REPLAY)
+                    # the weight maps multiply (simulated - target) element by element: they are the TARGET's companions and are
+                    # cut with the declared TARGET range (rows / columns), whichever way isel receives the slices
+                    sl = None
+                    if okw and not w.info.get("args"):
+                        kws = dict(w.info.get("kwargs", {}))
+                        if set(kws) == {"indexers"}:
+                            d = p.ex.try_dict(kws["indexers"])
+                            sl = {k.v: x for k, x in d} if d is not None and all(isinstance(k, VStr) for k, _ in d) else None
+                        elif "indexers" not in kws:
+                            sl = kws
+                    want = st.cell(h["trange"]).fields
+                    u.oblige(p, f"init.weight_maps_restricted_to_target_range[{tag}]", bool(sl is not None and set(sl) == {"y", "x"} and sl["y"] is want["row"] and sl["x"] is want["col"]), {}, FIT_REPLAY)
                 else:
                     u.oblige(p, f"init.declared_weights_kept[{tag}]", bool(isinstance(me.get("weighting"), VNone) and isinstance(me.get("weighting_from_file"), VNone)), {}, FIT_REPLAY)
             u.cover(f"init.cover[{tag}]", ps, lambda p: p.kind == "return")
